@@ -29,8 +29,8 @@ PROPS = {
     },
 }
 
-C04_SHARDS = (["shape=%d;opkind=0;op=%d" % (s_, o) for s_ in range(6) for o in range(9)]
-              + ["shape=%d;opkind=%d" % (s_, k) for s_ in range(6) for k in (1, 2)])
+C04_SHARDS = (["shape=%d;opkind=0;op=%d" % (s_, o) for s_ in range(7) for o in range(9)]
+              + ["shape=%d;opkind=%d" % (s_, k) for s_ in range(7) for k in (1, 2)])
 
 PROPS["C04"] = {
     "claim": "structural validity of the forest after arbitrary public calls, decided on the real manipulation / "
@@ -41,21 +41,21 @@ PROPS["C04"] = {
           budget=(900, 3000)),
     ],
     "panic_ok": ["h_c04_step"],
-    "bounds": {"quick": "6 start forests (5-8 nodes, all text-like contents symbolic), 1 call drawn from 30 operations with "
+    "bounds": {"quick": "7 start forests (5-8 nodes, all text-like contents symbolic), 1 call drawn from 30 operations with "
                         "every tuple of live nodes as arguments",
                "thorough": "same forests, every sequence of 2 calls"},
     "outside": "histories longer than 2 calls; forests other than the catalogue; parsing as a history step",
     "assumptions": [],
 }
 
-C06_SHARDS = (["shape=%d;opkind=0;op=%d" % (s_, o) for s_ in range(6) for o in range(9)]
-              + ["shape=%d;opkind=1" % s_ for s_ in range(6)])
+C06_SHARDS = (["shape=%d;opkind=0;op=%d" % (s_, o) for s_ in range(7) for o in range(9)]
+              + ["shape=%d;opkind=1" % s_ for s_ in range(7)])
 
 PROPS["C06"] = {
     "claim": "no panic edge is feasible in a manipulation call on live nodes, and on every path that returns Err the "
              "complete read-back (structure, values, liveness of every handle) is unchanged",
     "harnesses": [H("h_c06_step", shards={"quick": C06_SHARDS, "thorough": C06_SHARDS}, budget=(900, 3000))],
-    "bounds": {"quick": "6 start forests (5-8 nodes, symbolic contents), 1 call of 22 operations x every tuple of live nodes "
+    "bounds": {"quick": "7 start forests (5-8 nodes, symbolic contents), 1 call of 22 operations x every tuple of live nodes "
                         "of every kind", "thorough": "same"},
     "outside": "forests other than the catalogue; element-only accessors on non-elements (documented panics)",
     "assumptions": [],
@@ -64,9 +64,9 @@ PROPS["C06"] = {
 PROPS["C07"] = {
     "claim": "every traversal API equals the list computed from parent()/children() (and the namespace/attribute views) "
              "for every node of the catalogue trees",
-    "harnesses": [H("h_c07_axes", shards={"quick": shard_choose("shape", 8), "thorough": shard_choose("shape", 8)}),
-                  H("h_c07_all", shards={"quick": shard_choose("shape", 8), "thorough": shard_choose("shape", 8)})],
-    "bounds": {"quick": "8 catalogue trees (5-11 nodes incl. attribute/namespace nodes, deep chain, fan), every node as start node",
+    "harnesses": [H("h_c07_axes", shards={"quick": shard_choose("shape", 9), "thorough": shard_choose("shape", 9)}),
+                  H("h_c07_all", shards={"quick": shard_choose("shape", 9), "thorough": shard_choose("shape", 9)})],
+    "bounds": {"quick": "9 catalogue trees (5-11 nodes incl. attribute/namespace nodes, deep chain, fan), every node as start node",
                "thorough": "same"},
     "outside": "tree shapes outside the catalogue (shapes are concrete per path; the symbolic part is contents and the start node)",
     "assumptions": [],
@@ -82,6 +82,19 @@ PROPS["C13"] = {
                "thorough": "same"},
     "outside": "subtrees larger than 5 nodes; contents longer than one character; triples (transitivity follows from the "
                "canonical-form equivalence that is asserted pairwise)",
+    "assumptions": [],
+}
+
+C05_SHARDS = ["shape=%d;consolidate=%d;op=%d" % (s_, c, o) for s_ in range(7) for c in range(2) for o in range(11)]
+
+PROPS["C05"] = {
+    "claim": "one successful manipulation call under its documented preconditions leaves exactly the forest an ordered-tree "
+             "reference model predicts (position, identity of every other node, merged text contents, liveness)",
+    "harnesses": [H("h_c05_model", shards={"quick": C05_SHARDS, "thorough": C05_SHARDS}, budget=(900, 3000))],
+    "bounds": {"quick": "7 start forests x consolidation on/off x 11 operations x every argument tuple satisfying the "
+                        "preconditions; all text contents symbolic", "thorough": "same"},
+    "outside": "sequences of more than one call (C04 covers two-call histories structurally); which of two merged text nodes "
+               "survives is not asserted (the property's wording is ambiguous there)",
     "assumptions": [],
 }
 
